@@ -149,6 +149,40 @@ def run(ctx):
                 rep.check(any(a.kind == "param" and a.key == 4 and "as:Tick" in a.steps for a in targ), "C16.R5", "tick-arm@%s:entry-at-requested-tick" % n_tick_arms,
                           "the entry is looked up at the requested tick", "provenance entry is not looked up at the requested tick", site=rc.loc(t.get("line")))
     rep.check(n_tick_arms >= 2, "C16.R5", "tick-arms:count", "%d explicit-tick arms" % n_tick_arms, "expected >= 2 explicit-tick arms, found %d" % n_tick_arms, site=rc.loc())
+    # the arm is selected by the REQUESTED coordinate kind: resolution never synthesises a coordinate (an explicit tick that is
+    # silently treated as `Frontier` is answered from live state and changes with the next commit)
+    fns_rc0 = [rc] + [prog.fns[c] for c in prog.closures_in(rc.id)]
+    OAT = [p_ for p_ in prog.adts if p_ == OB + "ObservationAt"]
+    rep.check(len(OAT) == 1, "C16.R5", "coordinate-kind:adt", "ObservationAt found", "ObservationAt ADT candidates: %s" % OAT, site=rc.loc())
+    if len(OAT) == 1:
+        made = constructed_variants(fns_rc0, OAT[0])
+        rep.check(not made, "C16.R5", "coordinate-kind:never-synthesised", "resolve_coordinate constructs no ObservationAt value: the arm is chosen by the request",
+                  "resolve_coordinate constructs ObservationAt::%s (line %s): an explicit coordinate is re-mapped before resolution" % (sorted(made), sorted({l for v in made.values() for f_, l in v})), site=rc.loc())
+        sw_ok, n_sw = True, 0
+        for bi, si, place, rv, line in rc.assigns():
+            if rv["r"] == "disc" and rv.get("adt") == OAT[0]:
+                n_sw += 1
+                ats = ogr.of_place(rv["p"], deep=False)
+                if not ats or any(a.kind != "param" for a in ats):
+                    sw_ok = False
+        rep.check(n_sw >= 1 and sw_ok, "C16.R5", "coordinate-kind:matched-on-the-request", "%d match(es) on the coordinate kind, all on the request parameter" % n_sw,
+                  "the coordinate kind that selects the resolution arm does not come straight from the request (%d matches)" % n_sw, site=rc.loc())
+    # a historical optic reading cites only commits up to its coordinate: the witness tail is bounded by the resolved tick, and
+    # nothing in its computation reads the live provenance tip
+    wb = prog.fn(OB + "ObservationService::checkpoint_plus_tail_witness_basis")
+    wb_fns = [wb] + [prog.fns[c] for c in prog.closures_in(wb.id)]
+    tip = [(g.name, g.block_line(b)) for g in wb_fns for b in g.call_sites(r"Provenance\w+.*::(len|tip|latest\w*|head\w*)$|::frontier_tick$")]
+    rep.check(not tip, "C16.R5", "witness-basis:never-reads-the-live-tip", "the checkpoint+tail witness basis is computed from the resolved coordinate only",
+              "the witness basis of a historical reading reads the live provenance tip (%s): it cites commits later than its coordinate and changes with every later commit" % tip, site=wb.loc())
+    ogw = wb.origins()
+    ent = wb.call_sites(r"ProvenanceService::entry$|::entry$")
+    from_art = False
+    for (bb, kind, a, b, res, line) in comparisons(wb):
+        ta, tb = tokens_of_atoms(ogw.of_operand(a, deep=True)), tokens_of_atoms(ogw.of_operand(b, deep=True))
+        if "f:resolved_worldline_tick" in ta | tb:
+            from_art = True
+    rep.check(from_art and bool(ent), "C16.R5", "witness-basis:bounded-by-resolved-tick", "tail bounds are compared against the artifact's resolved tick; entries looked up (%d sites)" % len(ent),
+              "the witness tail is no longer bounded by the artifact's resolved tick", site=wb.loc())
     # ---- R6
     fns_rc = [rc] + [prog.fns[c] for c in prog.closures_in(rc.id)]
     live = constructed_variants(fns_rc, OB + "ObservationError")
